@@ -32,7 +32,7 @@ OPEN points O1..O9 (documentation silent / inconsistent; every behaviour admitte
 
 Technique: TLSObs.tla = the statement as a fold over histories (Judge); TLSReload.tla = implementation-shaped model (certReloader
 check / reload steps, watcher event queue and goroutine, getClientConfig snapshot), exhaustively checked by TLC against the
-statement (JsOK; variants pinned / eager / stale must be refuted); TLC generates the static cases (TLSStaticGen) and random
+statement (JsOK; variants pinnedsuites / pinnedwatch = the two open findings, eager / stale = controls must be refuted); TLC generates the static cases (TLSStaticGen) and random
 behaviours of the model (TLSReloadMC, -simulate); harness/tlsreload realises them on REAL configtls endpoints with real TLS
 handshakes over loopback against probe peers; TLSReloadMonitor.tla (TLC) judges what was recorded.
 """
@@ -43,11 +43,12 @@ import vlib
 SPEC = "TLSReload"
 R_MS, MARGIN_MS, SETTLE_MS = 500, 100, 300
 SIG_CCAR_SUITES = "E10-cipher-suites-not-applied-with-client-ca-file-reload"
+SIG_WATCH_LOST = "E10-client-ca-file-changes-unnoticed-after-removal"
 MAX_WATCHERS = 40          # servers with client_ca_file_reload per driver process (their inotify instance is never released)
 
 
 def mc_cfg(shape, depth, variant, emit=False):
-    return """SPECIFICATION Spec
+    return """SPECIFICATION %s
 CONSTANTS
   Shape = "%s"
   Depth = "%s"
@@ -62,7 +63,7 @@ CONSTANTS
   MaxOps <- MCMaxOps
 %s
 CHECK_DEADLOCK FALSE
-""" % (shape, depth, variant, "INVARIANT Emit" if emit else "VIEW view\nINVARIANT JsOK\nINVARIANT TypeOK")
+""" % ("GenSpec" if emit else "Spec", shape, depth, variant, "INVARIANT Emit" if emit else "VIEW view\nINVARIANT JsOK\nINVARIANT TypeOK")
 
 
 def refuted_clause(res):
@@ -193,6 +194,9 @@ def signature_of(s, verdict):
     if verdict["clause"] == "CipherSuites" and s["role"] == "server" and cfg["ccar"] and cfg["cca"] in ("CA1", "CA2", "SYS") \
             and cfg["suites"]:
         return SIG_CCAR_SUITES
+    # the client CA file was removed earlier in the script (wca or race), later content is not honoured
+    if verdict["clause"] == "ClientCAReload" and any(op.get("how") == "remove" for op in s["ops"][:max(verdict["at"] - 1, 0)]):
+        return SIG_WATCH_LOST
     return None
 
 
@@ -223,7 +227,8 @@ def run(c):
                              label="negative_%s" % variant)
         dfuts = [ex.submit(design, "cert"), ex.submit(design, "ca")]
         cfuts = [ex.submit(cover, "ca"), ex.submit(cover, "cert")]
-        nfuts = [("pinned", "CipherSuites", ex.submit(negative, "ca", "pinned")),
+        nfuts = [("pinnedsuites", "CipherSuites", ex.submit(negative, "ca", "pinnedsuites")),
+                 ("pinnedwatch", "ClientCAReload", ex.submit(negative, "ca", "pinnedwatch")),
                  ("eager", "ServedCertificate", ex.submit(negative, "cert", "eager")),
                  ("stale", "ClientCAReload", ex.submit(negative, "ca", "stale"))]
 
@@ -283,7 +288,8 @@ def run(c):
     if any(v["clause"] in ("MalformedLine", "script") for v in bad):
         raise vlib.Inconclusive("monitor could not read a line: %s" % bad[:3])
 
-    # a contradicted clause is reported only when it is reproduced: the script is run again (alone, twice)
+    # a contradicted clause is reported only when it is reproduced: the script is run again twice (racing scripts need not
+    # take the same course: one reproduction is enough)
     confirmed = []
     if bad and not c.replay:
         again = []
@@ -295,7 +301,7 @@ def run(c):
         v2 = judge(c, lines2, "again") if lines2 else {}
         for v in bad:
             reps = [v2.get("%s#%d" % (v["id"], k)) for k in range(2)]
-            if all(x is not None and not x["ok"] and x["clause"] == v["clause"] for x in reps):
+            if any(x is not None and not x["ok"] and x["clause"] == v["clause"] for x in reps):
                 confirmed.append(v)
             else:
                 c.log("not reproduced (no finding): %s %s -> %s" % (v["id"], v["clause"], reps))
@@ -325,7 +331,9 @@ def run(c):
         o = obs[s["id"]]["obs"]
         pend = False
         for op, ob, mo in zip(s["ops"], o, s["model"]):
-            if op["op"] in ("wca", "race"):
+            if op["op"] == "race" or op.get("how") == "remove":
+                break                                   # from here on the course depends on the interleaving
+            if op["op"] == "wca":
                 pend = True
             elif op["op"] == "settle":
                 pend = False
@@ -376,10 +384,9 @@ def run(c):
         "the client CA watcher has seen a file operation %d ms after it (a handshake that disagrees with the model is repeated "
         "for up to 5 s before it is recorded)" % SETTLE_MS,
         "crypto/tls default cipher suites contain A (ECDHE-ECDSA-AES128-GCM), B (AES256-GCM), C (AES128-CBC-SHA)",
-        "a contradicted clause is reported only if the same script contradicts the same clause in two more runs",
+        "a contradicted clause is reported only if the same script contradicts the same clause again in one of two more runs",
     ]
-    c.exhaustive = dict(design="all behaviours of the model within the bounds (TLC BFS)", static_cases="all cases of the groups",
-                        behaviours="random sample (-simulate, seed)")
+    c.exhaustive = False      # design: all behaviours within the bounds; static cases: all of the groups; histories: a sample
     c.finish_args = dict(rule="Judge (fold of StepEv, TLSObs.tla) evaluated by TLC on every recorded history",
                          distinct_nontrivial=len(lines))
 
